@@ -2,3 +2,6 @@ NOT_CLAIMED = {}
 chk("C11", "exploration", "differential runtime monitor: db.Equals/db.Search vs SQLite dense_rank over an exhaustively paired value grid",
     "Exhaustive over all ordered pairs of a ~300 (quick) / ~1100 (thorough) value grid x 3 collations x ASC/DESC plus PRNG multi-column keys; a total preorder consistent with SQLite's ranks implies totality, transitivity and Equals/Search coherence on the grid. Held on the pairs observed, not a proof over all values.",
     "SQLite 3.40.1 ranks are the reference; NaN and invalid UTF-8 excluded", "DESIGN.md 3 C11")
+chk("C01", "exploration", "differential reference-model monitor: DB.Select / Table.Scan vs real SQLite over a generated database corpus",
+    "Every table of every generated database (8 page sizes, depth 1..3 quick / 1..4 thorough, overflow chains, fragmented/vacuumed/auto-vacuum files, WITHOUT ROWID, ALTER-grown tables) x several column lists is compared row by row with SQLite. Held on the databases generated for the seed; not a proof over all files.",
+    "SQLite 3.40.1 is the reference; integral REAL may surface as integer", "DESIGN.md 3 C01")
